@@ -1406,3 +1406,29 @@ impl Drop for Arena {
 
 #[cfg(test)]
 mod tests;
+
+#[cfg(feature = "verif-hooks")]
+#[doc(hidden)]
+impl Arena {
+  /// Header words `(sentinel, allocated, min_segment_size, discarded)`.
+  pub fn verif_header(&self) -> (u64, u32, u32, u32) {
+    let header = self.header();
+    (
+      *header.sentinel.0.as_inner_ref(),
+      header.allocated,
+      header.min_segment_size,
+      header.discarded,
+    )
+  }
+
+  /// Bounded free-list walk `(node offset, node word)`.
+  pub fn verif_freelist(&self, max: usize) -> std::vec::Vec<(u32, u64)> {
+    let sentinel = *self.header().sentinel.0.as_inner_ref();
+    unsafe { crate::verif::walk_freelist(self.ptr, self.cap, sentinel, max) }
+  }
+
+  /// Reference count.
+  pub fn verif_refs(&self) -> usize {
+    unsafe { *self.inner.as_ref().refs().as_inner_ref() }
+  }
+}
